@@ -242,6 +242,7 @@ struct Stats {
     reads: u64,
     chains: Vec<u64>,
     docs_written: u64,
+    failed_reads: u64,
     found: Vec<Found>,
     sample: Option<serde_json::Value>,
 }
@@ -399,6 +400,12 @@ fn step(
                     Err(_) => Some(("panic".to_string(), "panicked".to_string())),
                 };
                 if let Some((kind, detail)) = fail {
+                    // a broken tree fails millions of reads: keep the simplest ones of this job
+                    st.failed_reads += 1;
+                    if st.found.len() >= 400 {
+                        st.found.sort_by(|a, b| a.complexity.cmp(&b.complexity));
+                        st.found.truncate(100);
+                    }
                     let class = dominant_class(chain, d.stage);
                     st.found.push(Found {
                         complexity: (
@@ -507,6 +514,7 @@ fn main() {
         run.add("upgrades_tried", s.upgrades_tried);
         run.add("upgrades_permitted", s.upgrades_permitted);
         run.add("documents_written", s.docs_written);
+        run.add("failed_reads", s.failed_reads);
         for c in s.chains {
             run.distinct(c);
         }
